@@ -98,6 +98,9 @@ def classify(e):
     return 'spec=%d hash=%s kbits=%d passlen=%d' % (e['spec'], e['halg'], e['kbits'], len(e['pass']))
 
 
+REPLAY_EXACT = True      # replay() re-executes exactly the stored case
+
+
 def run(ctx):
     ctx.assumptions += ['TLC/SANY', 'JSON marshalling', 'hashlib digests of streams whose descriptors TLC validated',
                         'for streams longer than 400 octets the harness\'s expansion Cycle(unit, n) is trusted (descriptor checked, expansion checked only for short streams)']
